@@ -334,12 +334,18 @@ class ODLDecoder(PVLDecoder):
                 r"(?P<dt>.+?)"  # the part before the sign
                 r"(?P<sign>[+-])"  # required sign
                 r"(?P<hour>0?[0-9]|1[0-2])"  # 0 to 12
-                fr"(?:{self.grammar._M_frag})?",  # Minutes
+                fr"(?::?{self.grammar._M_frag})?",  # Minutes
                 value,
             )
             if match is not None:
                 gd = match.groupdict(default=0)
                 dt = super().decode_datetime(gd["dt"])
+                if not hasattr(dt, "tzinfo"):
+                    # Only times and datetimes can have an offset, a
+                    # date (or a leap-second string) cannot.
+                    raise ValueError(
+                        f'"{gd["dt"]}" cannot take a time zone offset.'
+                    )
                 offset = timedelta(
                     hours=int(gd["hour"]), minutes=int(gd["minute"])
                 )
